@@ -67,7 +67,7 @@ func CheckC02(sc Scenario, rec *Rec) error {
 }
 
 func TestC02(t *testing.T) {
-	runProp(t, "C02", "epochs", 500, 10000, genScenario(ScenarioCfg{MaxEpochs: pick(25, 60), Parallel: 1, HugeFitness: true, DupIds: true, Warm: true, Retry: true, WideStolen: true, FitRegimes: true}), CheckC02)
+	runProp(t, "C02", "epochs", 500, 10000, genScenario(ScenarioCfg{MaxEpochs: pick(25, 60), Parallel: 1, HugeFitness: true, DupIds: true, Warm: true, Retry: true, WideStolen: true, FitRegimes: true, BigPops: true}), CheckC02)
 }
 
 func init() { registerReplay("C02", "epochs", CheckC02) }
